@@ -13,6 +13,16 @@ CLAIMED = {
    ref="DESIGN.md §8 C02, §7 M1",
    note="Lean kernel + {propext, Classical.choice, Quot.sound}; the hand-written model is tied to the code only by the differential run (sampled); usize = 64 bit",
    technique="Lean 4 proof (induction over chunks with a strict-prefix invariant) + differential correspondence"),
+ "C14": dict(
+   text="Lean 4 theorems over a model of the ResourceId bit layout (Nat with explicit 2^64 wrap, the Rust mask/shift "
+        "expressions transcribed): field round trip, the accessors partition all 64 bits for every raw value, injectivity, "
+        "poll-token round trip and waker distinctness on the token's domain, generator freshness for < 2^56 ids per "
+        "registry, disjointness across registries, and the regenerated transport/driver table (decide). Tie: differential "
+        "run through hooks on structured raw values + a live-network row. History-level parts (stale endpoints, event "
+        "attribution) are added with the network model M5.",
+   ref="DESIGN.md §8 C14, §7 M6",
+   note="Lean kernel + standard axioms (no bv_decide); hooks expose the private constructor/token conversions; usize = 64 bit",
+   technique="Lean 4 proof (bit ops reduced to arithmetic normal forms + omega; decide on the regenerated table) + differential correspondence"),
  "C17": dict(
    text="Lean 4 theorem feed_total: no byte sequence in any chunking makes the decoder model panic (inductive "
         "invariant over reachable decoder states), plus boundedness of buffered garbage. Tie: differential run on "
